@@ -41,26 +41,7 @@ def gen_cases(tier, seed):
     return cases
 
 
-def same_trial(a, b, inputs_only=False):
-    if a["rho"] != b["rho"] or a["dt"] != b["dt"]:
-        return False
-    if not (np.array_equal(a["x"], b["x"]) and np.array_equal(a["y"], b["y"])):
-        return False
-    if inputs_only:
-        return True
-    if ("accepted" in a) != ("accepted" in b):
-        return False
-    if "accepted" not in a:
-        return True
-    if a["accepted"] != b["accepted"] or a["lamb"] != b["lamb"] or a["same"] != b["same"]:
-        return False
-    if not (np.array_equal(a["xn"], b["xn"]) and np.array_equal(a["yn"], b["yn"])):
-        return False
-    if (a["active_set"] is None) != (b["active_set"] is None):
-        return False
-    if a["active_set"] is not None and not np.array_equal(a["active_set"], b["active_set"]):
-        return False
-    return True
+same_trial = work.same_trial
 
 
 def solve(case, limit=None, clock=None):
